@@ -2,6 +2,7 @@
 // @requires kv_clock_force.rs
 // @requires kv_main_track_peek.rs
 // @requires kv_mixer_peek.rs
+// @requires kv_storage_place.rs
 // C01 (final stage), C02/C11 (chunking), C05 (clock advance per chunk) on the REAL Renderer built
 // by create_resources(), with a probe Sound (public trait) on the main track.
 use crate::backend::resources::create_resources;
@@ -107,33 +108,35 @@ fn c01_renderer_final_stage_four_channels() { kv_final_stage_body::<4, 12>(2); }
 #[kani::unwind(18)]
 fn c01_renderer_final_stage_eight_channels() { kv_final_stage_body::<8, 16>(1); }
 
-// @h prop=C05,C11 tier=quick kind=main timeout=280
-// @bounds real Renderer with one real Clock (speed 2 or 4 ticks/s fixed, running) at 4 Hz, internal buffer 2: device callbacks of 1, 2, 3 or 5 frames (symbolic choice): the clock advances by speed x frames/4 s exactly, whatever the chunking
-// @funcs Renderer::{process,process_chunk}, Clocks::{on_start_processing,update}, SelfReferentialResourceStorage::for_each, Clock::update
-// @catches a chunk's elapsed time taken from the configured buffer size instead of the frames actually in it (clocks run fast on remainder chunks); clocks updated twice or not at all per chunk
-#[kani::proof]
-#[kani::unwind(8)]
-fn c05_renderer_clock_advance_matches_frames_rendered() {
-	let (mut r, mut c) = kv_renderer(2, 1);
+fn kv_clock_advance_body(frames: usize) {
+	let (mut r, c) = kv_renderer(2, 1);
 	let fast: bool = kani::any();
 	let speed = if fast { 4.0 } else { 2.0 };
-	let key = c.clock_controller.try_reserve().unwrap();
-	let (mut clock, handle) = Clock::new(Value::Fixed(ClockSpeed::TicksPerSecond(speed)), ClockId(key));
+	let mut clock = Clock::without_handle(Value::Fixed(ClockSpeed::TicksPerSecond(speed)));
 	clock.kv_force(true, 10, 0.0);
-	c.clock_controller.insert_with_key(key, clock);
-	r.on_start_processing();
-	let sel: u8 = kani::any();
-	kani::assume(sel < 4);
+	let key = r.resources.clocks.0.kv_place(clock);
 	let mut out = [0.0f32; 10];
-	let frames = match sel { 0 => 1, 1 => 2, 2 => 3, _ => 5 };
 	r.process(&mut out[..frames * 2], 2);
-	r.on_start_processing();
 	// ticks elapsed = speed * frames / 4 : with speed 2 -> frames/2, with speed 4 -> frames
-	let t = handle.time();
 	let half_ticks = if fast { 2 * frames } else { frames }; // elapsed time in half ticks
-	assert!(t.ticks == 10 + (half_ticks / 2) as u64 && t.fraction == if half_ticks % 2 == 1 { 0.5 } else { 0.0 },
+	let st = r.resources.clocks.0.resources.get(key).unwrap().state();
+	assert!(st == ClockState::Started { ticks: 10 + (half_ticks / 2) as u64, fractional_position: if half_ticks % 2 == 1 { 0.5 } else { 0.0 } },
 		"a clock advances by exactly speed x elapsed audio time regardless of how the callback is cut into chunks");
-	kani::cover!(frames == 3, "w:remainder-chunk");
-	kani::cover!(frames == 1, "w:callback-smaller-than-buffer");
-	std::mem::forget(r); std::mem::forget(c); std::mem::forget(handle);
+	kani::cover!(fast, "w:fast");
+	std::mem::forget(r); std::mem::forget(c);
 }
+
+// @h prop=C05,C11 tier=quick kind=main timeout=280
+// @bounds real Renderer with one real Clock (speed 2 or 4 ticks/s, running) at 4 Hz, internal buffer 2; device callback of 3 frames (a full chunk plus a remainder chunk)
+// @funcs Renderer::{process,process_chunk}, Clocks::update, SelfReferentialResourceStorage::for_each, Clock::update
+// @catches a chunk's elapsed time taken from the configured buffer size instead of the frames actually in it (clocks run fast on remainder chunks); clocks updated twice or not at all per chunk
+#[kani::proof]
+#[kani::unwind(40)]
+fn c05_renderer_clock_advance_remainder_chunk() { kv_clock_advance_body(3); }
+
+// @h prop=C05,C11 tier=quick kind=main timeout=280
+// @bounds as above with a device callback of 1 frame (smaller than the internal buffer)
+// @funcs Renderer::{process,process_chunk}, Clocks::update, Clock::update
+#[kani::proof]
+#[kani::unwind(40)]
+fn c05_renderer_clock_advance_short_callback() { kv_clock_advance_body(1); }
